@@ -15,6 +15,7 @@ from sa.cfg import NORMAL, describe_path
 from sa.report import Report
 from sa.statemodel import StateModel, _has_inst
 from sa import pat
+from sa.util import fact_in
 from rules.C08 import C08, cfg_root
 
 INDEX_ATTRS = {"_oids", "_paths", "_changeset_storage", "_changeset"}
@@ -92,7 +93,7 @@ class C11:
             detail = "no call of %s" % callee
             for c in calls:
                 facts = ctx.facts_at(f, c)
-                if ("%s == '%s'" % (key, k), True) in facts:
+                if fact_in(facts, "%s == '%s'" % (key, k), True):
                     a = [ast.unparse(x) for x in c.args]
                     good = a[:3] == [side, ent, val]
                     detail = "%s(%s) under key == '%s'" % (callee, ", ".join(a), k)
